@@ -49,7 +49,8 @@ Theorem checked_call_delivers : forall f env,
   (forall p, mem p (fc_dummies f) = true -> has_kind (kind_of p (fc_kinds f)) (flookup p env)) ->
   Forall2 (fun p act => forall v, documented (fc_dummies f) env p = Some v -> act = v) (fc_params f) (actuals f env).
 Proof.
-  intros f env Hok Hk. unfold fcall_ok in Hok. apply andb_true_iff in Hok. destruct Hok as [Hok _]. unfold actuals.
+  intros f env Hok Hk. unfold fcall_ok in Hok. apply andb_true_iff in Hok. destruct Hok as [Hok _].
+  apply andb_true_iff in Hok. destruct Hok as [Hok _]. unfold actuals.
   generalize dependent (fc_args f). induction (fc_params f) as [|p ps IH]; intros args Hok.
   - destruct args; [constructor | discriminate].
   - destruct args as [|a args]; [discriminate|]. cbn [args_ok] in Hok. apply andb_true_iff in Hok. destruct Hok as [Ha Hr].
@@ -88,7 +89,8 @@ Theorem checked_outputs_reach_the_caller : forall f stored before r c,
   fcall_ok f = true -> mem r (fc_outputs f) = true -> In (c, r) (fc_args f) -> passes_value c = true ->
   caller_sees f stored before r = stored r.
 Proof.
-  intros f stored before r c Hok Hout Hin Hp. unfold fcall_ok in Hok. apply andb_true_iff in Hok. destruct Hok as [_ Hok].
+  intros f stored before r c Hok Hout Hin Hp. unfold fcall_ok in Hok. apply andb_true_iff in Hok. destruct Hok as [Hok _].
+  apply andb_true_iff in Hok. destruct Hok as [_ Hok].
   unfold outs_ok in Hok. rewrite forallb_forall in Hok. specialize (Hok (c, r) Hin). cbn [out_ok] in Hok.
   rewrite Hout, Hp in Hok. cbn [andb] in Hok. unfold caller_sees.
   apply orb_true_iff in Hok. destruct Hok as [Hb | Hb].
@@ -108,3 +110,22 @@ Example copy_back_is_needed :
               fc_args := [(FBool, "flag")]; fc_outputs := ["flag"]; fc_copyback := [] |} in
   fcall_ok f = false /\ caller_sees f (fun _ => 1) (fun _ => 0) "flag" = 0.
 Proof. split; reflexivity. Qed.
+
+
+(* a character dummy of a checked call that is handed over as its own (blank padded) storage travels with a length parameter
+   of the same interface: the C side never has to look for a terminator that is not there *)
+Theorem direct_character_has_a_length : forall f p r,
+  fcall_ok f = true -> In (p, (FDirect, r)) (combine (fc_params f) (fc_args f)) ->
+  kind_of p (fc_kinds f) = DChar -> mem p (fc_dummies f) = true ->
+  has_length (fc_args f) p = true.
+Proof.
+  intros f p r Hok Hin Hk Hm. unfold fcall_ok in Hok. apply andb_true_iff in Hok. destruct Hok as [_ Hc].
+  unfold chars_ok in Hc. rewrite forallb_forall in Hc. specialize (Hc _ Hin). cbn [char_ok] in Hc.
+  rewrite Hk, Hm in Hc. cbn [negb orb] in Hc. exact Hc.
+Qed.
+
+Example length_is_needed :
+  let f := {| fc_name := "tag>c_tag"; fc_dummies := ["name"]; fc_kinds := [("name", DChar)]; fc_params := ["name"];
+              fc_args := [(FDirect, "name")]; fc_outputs := []; fc_copyback := [] |} in
+  fcall_ok f = false.
+Proof. reflexivity. Qed.
